@@ -232,6 +232,15 @@ class CatLinearOperator(LinearOperator):
         if self.cat_dim < -2:
             batch_indices_below_cat_dim = batch_indices[len(batch_indices) + self.cat_dim + 3 :]
             num_collapsed_dims = len(tuple(idx for idx in batch_indices_below_cat_dim if isinstance(idx, int)))
+            # tensor indices behind the concatenation dimension end up in ONE dimension (in place if all tensor indices
+            # are adjacent and behind the concatenation dimension, in front of all dimensions otherwise)
+            cat_pos = len(batch_indices) + self.cat_dim + 2
+            tensor_pos = [i for i, idx in enumerate(batch_indices) if torch.is_tensor(idx)]
+            num_below = sum(i > cat_pos for i in tensor_pos)
+            if num_below:
+                between = batch_indices[tensor_pos[0] : tensor_pos[-1]]
+                in_place = tensor_pos[0] > cat_pos and not any(isinstance(idx, slice) for idx in between)
+                num_collapsed_dims += num_below - (1 if in_place else 0)
             updated_cat_dim += num_collapsed_dims
 
         # Process the cat_dim index
